@@ -99,6 +99,8 @@ func show(v starlark.Value) string {
 		return "F"
 	case starlark.Int:
 		return "i" + v.String()
+	case starlark.Float:
+		return "f" + v.String() // outside the Lean model's universe: judged on the implementation only
 	}
 	return fmt.Sprintf("?%s", v.Type())
 }
@@ -173,6 +175,17 @@ func (p *parser) value() starlark.Value {
 		}
 		p.i = j
 		return starlark.MakeInt64(n)
+	case 'f':
+		j := p.i
+		for j < len(p.s) && strings.IndexByte("+-0123456789.einfa", p.s[j]) >= 0 {
+			j++
+		}
+		x, err := strconv.ParseFloat(p.s[p.i:j], 64)
+		if err != nil {
+			p.fail("float")
+		}
+		p.i = j
+		return starlark.Float(x)
 	case 's':
 		return starlark.String(p.hexRun())
 	case 'b':
@@ -348,9 +361,11 @@ func equal(x, y starlark.Value) bool {
 	return err == nil && eq
 }
 
-// sameVal: the very value that was given (same Go type, equal content)
+// sameVal: the very value that was given, as far as a program can tell: same Go type, equal content, and the
+// same printed form all the way down (== identifies 1 and 1.0, 0.0 and -0.0; a diff that hands back the one for the
+// other does not reproduce the value)
 func sameVal(x, y starlark.Value) bool {
-	return reflect.TypeOf(x) == reflect.TypeOf(y) && equal(x, y)
+	return reflect.TypeOf(x) == reflect.TypeOf(y) && equal(x, y) && x.String() == y.String()
 }
 
 func isSliceLike(v starlark.Value) bool {
@@ -613,7 +628,9 @@ func diffCase(stream string, a, b starlark.Value, depth, routeSize int) {
 	if d != nil {
 		stats["nonempty"]++
 	}
-	if routeSize > 0 {
+	if !modelable(a) || !modelable(b) {
+		stats["judge_only"]++
+	} else if routeSize > 0 {
 		emitC(stream, fmt.Sprintf("diffr %d %d %s %s", routeSize, depth, in.Old, in.New), ans)
 	} else {
 		emitC(stream, fmt.Sprintf("diff %d %s %s", depth, in.Old, in.New), ans)
